@@ -536,6 +536,15 @@ func c17Unfolder(c *run.C) {
 		if !idleCheck(c, "unfolder", u, idle, fmt.Sprintf("document %d into %s", i, h.t)) {
 			return
 		}
+		if r.P(1, 3) {
+			// Reset between complete documents (drops the target): the next
+			// SetTarget - possibly of a type this unfolder never compiled -
+			// must find the instance configured as it was created
+			if !c.Guard("unfolder.Reset", func() { u.Reset() }) {
+				return
+			}
+			c.Observe("unfolder_resets_between_documents", 1)
+		}
 	}
 	ut := reflect.New(probe.t)
 	var uerr error
